@@ -29,6 +29,16 @@ CLAIMED = {
             'client frame for the transaction after its outcome. Exhaustive over the enumerated placements only; the rest is sampling.',
             'Trusted: CPython, the harness decoders/attribution, one shared virtual clock for all nodes, the generous C04.b bound.',
             'DESIGN.md section 3 (C04)'),
+    'C05': ('fault_enumeration',
+            'deterministic simulation: complete length sweeps and single-fault enumeration + seeded multi-fault exploration; byte-exact payload oracle and independent wire-discipline monitor',
+            'Fault-free transfer of every payload length 0..4*seg+2 per direction, every single fault (drop, duplicate x3, delay x3) at every frame '
+            'of boundary-length transfers for window pairs, long payloads across the 8-bit sequence wrap, plus seeded multi-fault exploration '
+            '(hashed plans, crash/restart mid-stream, stalls, reordering). Oracles: payload delivered to either application is octet-identical to '
+            'what was submitted (else abort), every emitted segment carries the right slice / sequence number / more-follows and stays inside the '
+            'window granted by the segment-acks delivered to the sender (independent decoder and encoder), any single fault is repaired and the '
+            'transaction succeeds. Exhaustive over the enumerated placements only.',
+            'Trusted: CPython, harness codecs, shared virtual clock; C05.c asserted only under protocol-sane timers (T_seg + 2*D_max < T_out, retries >= 1).',
+            'DESIGN.md section 3 (C05)'),
 }
 
 PLANNED = {k: 'check not built yet in this revision (deterministic-simulation check planned, DESIGN.md section 3); not claimed until it exists'
